@@ -28,8 +28,9 @@ def sortNat (l : List Nat) : List Nat := (l.toArray.qsort (· < ·)).toList
 def sortPairs (l : List (Nat × Nat)) : List (Nat × Nat) :=
   (l.toArray.qsort (fun a b => a.1 < b.1 || (a.1 == b.1 && a.2 < b.2))).toList
 
-def obsJ (r : Rel) (os : List Nat) (s : St) : Json :=
+def obsJ (r : Rel) (os : List Nat) (op : Op) (s : St) : Json :=
   Json.mkObj [
+    ("args", natListJ (if op.kind = .append ∨ op.kind = .replace then argIds os op.vals s else [])),
     ("err", Json.bool s.err),
     ("links", Json.arr ((sortPairs s.links.eraseDups).map (fun p => natListJ [p.1, p.2])).toArray),
     ("targets", natListJ (sortNat s.targets.eraseDups)),
@@ -42,7 +43,7 @@ def runObs (r : Rel) (os : List Nat) : List Op → St → List Json
   | [], _ => []
   | op :: ops, s =>
     let s' := step r os op { s with log := [] }
-    obsJ r os s' :: runObs r os ops s'
+    obsJ r os op s' :: runObs r os ops s'
 
 /-- ["assoc.run", {cls, card1, owners, links, targets, next, ops}] -> one observation per step -/
 def handleC12 (op : String) (args : Array Json) : Option Json := do
@@ -62,6 +63,16 @@ def handleC12 (op : String) (args : Array Json) : Option Json := do
     let ops ← (← jArr? (← (j.getObjVal? "ops").toOption)).toList.mapM parseAssocOp
     let s0 : St := { links := links, targets := targets, next := next, mem := fun _ => [], memFk := fun _ => 0 }
     some (Json.arr (runObs ⟨cls, card1⟩ os ops s0).toArray)
+  | "assoc.ck" =>
+    -- ["assoc.ck", linked tuples, named tuples] -> records created by Append(linked), in-memory field after Delete(named)
+    let tup (j : Json) : Option (List (List (List Char))) := do
+      (← jArr? j).toList.mapM fun t => do
+        (← jArr? t).toList.mapM fun c => (jStr? c).map String.toList
+    let linked ← tup (arg args 1)
+    let nmd ← tup (arg args 2)
+    let showT (l : List (List (List Char))) : Json :=
+      Json.arr (l.map (fun t => strListJ (t.map String.ofList))).toArray
+    some (Json.mkObj [("created", showT (distinctByKey linked [])), ("mem", showT (keepByKey linked nmd))])
   | _ => none
 
 end Gorm.Drv
